@@ -841,10 +841,17 @@ def stream_relabel_lb(ctx):
         ctx.test("relabelled_self_pair_lb_zero", why is None)
         ctx.count("relabel_lb:n=%d" % n)
         if why:
-            ctx.violation("relabelling changes the bracket: " + why,
-                          {"op": "bigpair", "name": "relabelled %d-vertex graph" % n, "seed": 0, "order": [0.0, 0.0], "container": "int",
-                           "entries": [U1, U2], "isomorphic": True}, law="bigpair")
-            return
+            # find_lb / make_distance_matrix are called here with the harness's own convention: the claim is made through
+            # the PUBLIC entry point (the same case, which is also what the replay runs); only a failure there is a
+            # failing input
+            case = {"op": "bigpair", "name": "relabelled %d-vertex graph" % n, "seed": 0, "order": [0.0, 0.0], "container": "int",
+                    "entries": [U1, U2], "isomorphic": True}
+            ok_pub, why_pub = big_pair_ok(case)
+            if not ok_pub:
+                ctx.violation("relabelling changes the bracket: %s; gromov_hausdorff on the pair: %s" % (why, why_pub), case, law="bigpair")
+                return
+            report(ctx, "find_lb called directly: %s, but gromov_hausdorff on the same pair is fine %s" % (why, why_pub), case,
+                   found_input=False, correspondence="find_lb (direct call)")
 
 
 def big_pair_ok(c):
